@@ -37,3 +37,8 @@ def listBack (l : List Ptr) : Ptr := l.getLastD nilPtr
 /-- `l.Remove(l.Back())` -/
 def listDropBack (l : List Ptr) : List Ptr := l.dropLast
 end Gtree.Go
+
+namespace Gtree.Go
+/-- `c.next()` of a counter (counter.go: `c.n += 1; return c.n` under the mutex): the new count, twice -/
+def counterNext (n : Int) : Int × Int := (n + 1, n + 1)
+end Gtree.Go
